@@ -99,6 +99,9 @@ type Lemma struct {
 }
 
 type tailrecSpec struct {
+	// readsAt: source lines (with occurrence) at which the state is captured; the relation of an
+	// obligation dominated by such a point reads the heap as it was there (nearest one)
+	readsAt []*atAssume
 	rel    *clause // relation over the head state with the free name OUT
 	cont   *clause // outcome of continuing the loop (evaluated at the back edge)
 	result *clause // outcome at a return
@@ -120,7 +123,14 @@ type TypeInv struct {
 	text  string
 }
 
+type frozenGlobal struct {
+	pkg  *packages.Package
+	name string
+	tags []string
+}
+
 type Contracts struct {
+	frozen []frozenGlobal
 	invs   []*TypeInv
 	funcs  map[string]*FuncContract
 	fields map[string]*FuncContract
@@ -194,7 +204,7 @@ func (cs *Contracts) parseFile(p *packages.Package, file string) {
 		line int
 	}
 	var raws []raw
-	kw := regexp.MustCompile(`^(invariant|func|field|spec|lemma|requires|ensures|hint|decreases|at|preserves|holds|locks|changes|panics|assigns|loop|tco|pure|trusted|inline|hyp|goal|props)\b`)
+	kw := regexp.MustCompile(`^(invariant|frozen|func|field|spec|lemma|requires|ensures|hint|decreases|at|preserves|holds|locks|changes|panics|assigns|loop|tco|pure|trusted|inline|hyp|goal|props)\b`)
 	for i, ln := range strings.Split(string(data), "\n") {
 		t := strings.TrimSpace(ln)
 		if !strings.HasPrefix(t, "//@") {
@@ -306,6 +316,13 @@ func (cs *Contracts) parseFile(p *packages.Package, file string) {
 				sf.body = c.expr
 			}
 			cs.specs[sf.name] = sf
+			cur, curLemma = nil, nil
+		case "frozen":
+			// frozen g1 g2: package-private globals no call or loop is taken to change; every
+			// function of the package that stores to one is checked to restore it (frozen/restored)
+			for _, n := range strings.Fields(rest) {
+				cs.frozen = append(cs.frozen, frozenGlobal{pkg: p, name: n, tags: tags})
+			}
 			cur, curLemma = nil, nil
 		case "invariant":
 			// invariant TypeName(x) = expr
@@ -451,6 +468,23 @@ func (cs *Contracts) parseFile(p *packages.Package, file string) {
 							cur.tailrec[n].result = c
 						}
 					}
+				} else if len(fs) >= 3 && fs[1] == "readsat" {
+					// loop N readsat "source line"#occ
+					n, _ := strconv.Atoi(fs[0])
+					am := regexp.MustCompile("^\"((?:[^\"\\\\]|\\\\.)*)\"(?:#(\\d+))?\\s*$").FindStringSubmatch(strings.TrimSpace(strings.SplitN(rest, "readsat", 2)[1]))
+					if am == nil {
+						cs.errf(file, r.line, "bad readsat clause %q", t)
+						continue
+					}
+					src, _ := strconv.Unquote("\"" + am[1] + "\"")
+					occ, _ := strconv.Atoi(am[2])
+					if cur.tailrec == nil {
+						cur.tailrec = map[int]*tailrecSpec{}
+					}
+					if cur.tailrec[n] == nil {
+						cur.tailrec[n] = &tailrecSpec{}
+					}
+					cur.tailrec[n].readsAt = append(cur.tailrec[n].readsAt, &atAssume{src: normSrc(src), occ: occ})
 				} else if len(fs) >= 3 && fs[1] == "assume" {
 					n, _ := strconv.Atoi(fs[0])
 					src := strings.TrimSpace(strings.SplitN(rest, "assume", 2)[1])
